@@ -21,7 +21,7 @@ CHECKS = {
    design="§4 C19"),
  "C15": dict(level="model_checking", engine="E2 MIR->SMT (z3 5.1 + cvc5) + E1 kani/cbmc",
    technique="MIR of the look-up functions and of intermediate_tuple/rand/deg symbolically executed into integer SMT (K resp. the internal symbol id symbolic over the whole reachable range, one query pair per Table-2 row, both overflow-check settings); Kani harness over enc_indices with symbolic row and arbitrary in-range tuple",
-   text="Exhaustive domain for the arithmetic: for all 477 rows and every internal symbol id X < 2^24+K' the solver shows no panic path of Tuple[] is reachable (overflow checks on and off), the tuple lies in the stated ranges and equals an RFC transcription; the eight look-up functions return the row of the smallest K' >= K for symbolic K and refuse K > 56403; the constant tables of the current source equal the pinned RFC values and satisfy the primality/size facts (concrete, all rows); Kani shows Enc[] index generation terminates, never panics and yields exactly d+d1 indices < L for every row and every in-range tuple.",
+   text="Exhaustive domain for the arithmetic: for all 477 rows and every internal symbol id X < 2^24+K' the solver shows no panic path of Tuple[] is reachable (overflow checks on and off), the tuple lies in the stated ranges and equals an RFC transcription; the eight look-up functions return the row of the smallest K' >= K for symbolic K and refuse K > 56403; the constant tables of the current source equal the pinned RFC values and satisfy the primality/size facts (concrete, all rows); Kani shows Enc[] index generation terminates, never panics and yields exactly d+d1 indices < L for every row and every in-range tuple, and (independently of the MIR executor) the tuple ranges for symbolic row and id.",
    note="Trusted: vlib/mir.py executor and its std models; V0..V3 contents/xor are uninterpreted in the SMT queries (contents compared concretely with /verif/oracle/rfc6330_tables.json, which stands in for the printed RFC); Kani's unoptimised-MIR model; per-loop unwinding bounds are enforced by unwinding assertions.",
    design="§4 C15"),
  "C14": dict(level="model_checking", engine="E2 MIR->SMT (z3 5.1 + cvc5)",
@@ -36,7 +36,7 @@ CHECKS = {
    design="§2 E3, §4 C06"),
  "C04": dict(level="translation_validation", engine="E3 + E1 kani + E2",
    technique="translation validation of the encoder's operation programs by finite-field SMT for all data; Kani harness showing enc_into xors exactly the symbols Enc[] selects for every in-range tuple (one-hot slab); MIR->SMT equality of intermediate_tuple with Tuple[K',X] for all rows and ids; concrete packet differential against the transcription",
-   text="(1) programs behind SourceBlockEncoder::new / with_encoding_plan validated for all data for every K' up to the bound => intermediate symbols are the RFC's unique C; (2) Kani: for the K'=10 geometry and every in-range tuple the result of enc_into on a one-hot slab equals the GF(2) coefficient vector of an independent Enc[] transcription (identity and permuted slab); (3) E2: tuple == RFC Tuple for rows K'<=600 (quick) / all 477 (thorough), X symbolic; (4) concrete: real source/repair packets (ESIs K.., 2^24-1, seeded) equal the transcription's byte for byte.",
+   text="(1) programs behind SourceBlockEncoder::new / with_encoding_plan validated for all data for every K' up to the bound => intermediate symbols are the RFC's unique C; (2) Kani: for the K'=10 geometry and every in-range tuple the result of enc_into on a one-hot slab equals the GF(2) coefficient vector of an independent Enc[] transcription (identity and permuted slab); (3) E2: tuple == RFC Tuple for rows K'<=600 (quick) / all 477 (thorough), X symbolic; (4) concrete: real source/repair packets (ESIs K.., 2^24-1, seeded) equal the transcription's byte for byte, also for multi-block objects with neighbouring block sizes of different K', and for every row up to K'=1200 the real intermediate symbols satisfy the RFC system and the first repair packets are Enc of them.",
    note="Trusted: as C06 plus the paper composition of (1)-(3); ESI->ISI offset and source packet identity are only observed concretely in (4); T>1 rests on C09/C11.",
    design="§4 C04"),
  "C01": dict(level="translation_validation", engine="E3 cvc5 finite-field SMT over decode programs emitted by the real decoder",
@@ -51,7 +51,7 @@ CHECKS = {
    design="§4 C02"),
  "C09": dict(level="model_checking", engine="E1 kani/cbmc",
    technique="Kani (CBMC) harnesses over the real SymbolSlab, perform_op and enc_into: arbitrary slab contents, arbitrary permutation as reorder map, symbolic indices/op kind, frame condition and byte-wise semantics asserted per byte; enc_into checked on a one-hot slab against an Enc[] transcription",
-   text="The units that make the code linear and column-wise are decided: (i) get/get_mut/get_pair_mut address exactly data[phys*T..phys*T+T], pairs are disjoint and in bounds, equal or out-of-range indices panic; (ii) perform_op changes only the destination symbol and applies xor / c* / xor-c* byte by byte (symbolic op kind, indices, data; T in {1,2,3,9}); Reorder is a pure relabelling; (iv) enc_into forms the GF(2) combination Enc[] prescribes for every in-range tuple independently of the data. (iii) is C11. The lift from T=1 certificates (C04/C06/C01) to every T is the paper composition of these.",
+   text="The units that make the code linear and column-wise are decided: (i) get/get_mut/get_pair_mut address exactly data[phys*T..phys*T+T], pairs are disjoint and in bounds, equal or out-of-range indices panic; (ii) perform_op changes only the destination symbol and applies xor / c* / xor-c* byte by byte (symbolic op kind, indices, data; T in {1,2,3,9}); Reorder is a pure relabelling; (iv) enc_into and enc_indices form the GF(2) combination Enc[] prescribes for every in-range tuple independently of the data. (iii) is C11; next to it, concretely, 20 dispatched kernel operations through a slab at every T in 1..72 (every byte alignment and stride residue) match the field definition. The lift from T=1 certificates (C04/C06/C01) to every T is the paper composition of these.",
    note="No direct whole-encoder comparison of T-byte packets with T one-byte encodings (plan replay is out of CBMC's reach); slab shapes are a small listed set; multiplying ops with a fixed scalar for T>1 (table cost).",
    design="§4 C09"),
  "C11": dict(level="model_checking", engine="E1 kani/cbmc with intrinsic stubs",
@@ -60,7 +60,7 @@ CHECKS = {
    note="Trusted: the stub models of _mm*_shuffle_epi8, _bextr2_u32, _mm512_maskz_mov_epi8; Kani has no alignment faults (unaligned loads are used by the kernels); run-time dispatch is not executed; NEON kernels are not compiled here; the lengths x scalars product of table kernels is covered per dimension, not jointly.",
    design="§4 C11"),
  "C12": dict(level="model_checking", engine="E1 kani/cbmc",
-   technique="the C11 kernel harnesses on exact-size heap operands (CBMC pointer checks flag any byte outside a slice), plus harnesses for SymbolSlab::get_pair_mut (raw-pointer pair: address, bounds, disjointness), util::get_both_ranges/get_both_indices and the unchecked table look-ups of Octet::mul/fma",
+   technique="the C11 kernel harnesses on exact-size heap operands (CBMC pointer checks flag any byte outside a slice), plus harnesses for SymbolSlab::get_pair_mut (raw-pointer pair: address, bounds, disjointness; refusal for an arbitrary, non-injective or out-of-range reorder map), util::get_both_ranges/get_both_indices and the unchecked table look-ups of Octet::mul/fma",
    text="Within the listed lengths/shapes no kernel, tail loop, unchecked look-up or paired borrow reads or writes outside its operands or hands out overlapping mutable access: CBMC's object-bounds/dead-object/unaligned-access checks pass for symbolic contents, indices and permutations, in both debug-assertion settings for the util/octet units.",
    note="Kani does not check aliasing models; whole workloads and lengths above the bounds are outside; a failing pointer check cannot be confirmed natively and is reported on Kani's memory model.",
    design="§4 C12"),
@@ -71,7 +71,7 @@ CHECKS = {
    design="§4 C05"),
  "C18": dict(level="model_checking", engine="E2 MIR->SMT (z3 5.1 + cvc5)",
    technique="symbolic execution of the MIR of repair_packets, the source_packets closure, get_encoded_packets and with_encoding_plan with symbolic K, s, n, block number; ids, the ISI handed to Tuple[] and all arguments of the pure payload functions are compared between windows and single requests by SMT queries",
-   text="For every K in 1..56403, every u32 start s and window length n<=3 with K+s+n<=2^24: packet i carries (sbn, K+s+i) and Enc of Tuple[K', K'+s+i] computed with K's parameters, ids strictly increase, nothing panics, the last id 2^24-1 is producible and ids >= 2^24 are refused; packet i of a window has exactly the arguments of the single request s+i (payload callees are pure: checked syntactically), so overlapping windows agree; source packet i is (sbn, i, source symbol i); the per-object list is, block by block, source packets then repair_packets(0,r); with_encoding_plan accepts a plan iff it was generated for the same symbol count. Both overflow-check settings. Concrete: windows vs singles near both ends of the ESI range, id 2^24 refused, two generated plans equal.",
+   text="For every K in 1..56403, every u32 start s and window length n<=3 with K+s+n<=2^24: packet i carries (sbn, K+s+i) and Enc of Tuple[K', K'+s+i] computed with K's parameters, ids strictly increase, nothing panics, the last id 2^24-1 is producible and ids >= 2^24 are refused; packet i of a window has exactly the arguments of the single request s+i (payload callees are pure: checked syntactically), so overlapping windows agree; source packet i is (sbn, i, source symbol i); the per-object list is, block by block, source packets then repair_packets(0,r); with_encoding_plan accepts a plan iff it was generated for the same symbol count. Both overflow-check settings. Concrete: windows vs singles near both ends of the ESI range (padded and unpadded blocks), no id >= 2^24 ever returned, two generated plans equal, block encoders inside multi-block Encoders equal standalone and explicitly planned ones.",
    note="K', W, J, P1 are uninterpreted functions of K here (C15 covers them); payload equality is inferred from argument equality; Vec/iterator operations are hand models; windows longer than 3 are outside the symbolic part.",
    design="§4 C18"),
  "C16": dict(level="model_checking", engine="E1 kani/cbmc",
